@@ -136,7 +136,11 @@ fn c06_reverse(rep: &mut Report, x: [f64; 3], src: &str) {
     rep.check("C06.lab.reverse", maxabs3(b, x) <= 1e-5, || format!("{} xyz ({:e},{:e},{:e}) lab ({:e},{:e},{:e}) -> ({:e},{:e},{:e})", src, x[0], x[1], x[2], l[0], l[1], l[2], b[0], b[1], b[2]));
     let l = cieluv(x);
     let b = v(Xyz::from(Luv { l: l[0], u: l[1], v: l[2] }));
+    // CIELUV stores v' as an offset from the white's v'n = 0.468: when v' = 9Y/(X+15Y+3Z) is below 1e-9 the f64 coordinates no
+    // longer determine the XYZ within 1e-5 (the offset cancels), so such inputs say nothing about the code
+    if 9.0 * x[1] / (x[0] + 15.0 * x[1] + 3.0 * x[2]) >= 1e-9 {
     rep.check("C06.luv.reverse", maxabs3(b, x) <= 1e-5, || format!("{} xyz ({:e},{:e},{:e}) luv ({:e},{:e},{:e}) -> ({:e},{:e},{:e})", src, x[0], x[1], x[2], l[0], l[1], l[2], b[0], b[1], b[2]));
+    }
     let l = hunter(x);
     let b = v(Xyz::from(Hlab { l: l[0], a: l[1], b: l[2] }));
     let sig = (b[0] - x[0]).abs() <= 1e-5 && (b[1] - x[1]).abs() <= 1e-5 && (b[2] + x[2]).abs() <= 1e-5;
@@ -168,6 +172,33 @@ pub fn c06(tier: &str, seed: u64, known: &[String]) -> Report {
     for _ in 0..(if tier == "thorough" { 1_000_000 } else { 50_000 }) {
         c06_reverse(&mut rep, [rng.range(0.0, 1.1), rng.range(1e-6, 1.1), rng.range(0.0, 1.1)], "random");
     }
+    // edges of "any XYZ in [0,1.1]^3 with non-zero luminance": tiny luminance against large X, Z; zero X or Z; the corners
+    let ys = [1e-300, 1e-16, 1e-12, 1e-8, 1e-4, 0.5, 1.1]; let xs = [0.0, 1e-8, 0.5, 1.0, 1.1];
+    for y in ys { for x in xs { for z in xs { c06_reverse(&mut rep, [x, y, z], "edge"); } } }
+    // the same clause entered from the coordinate side: coordinates with zero or equal components (u = 0 with v != 0, a = 0, ...)
+    // are the exact coordinates of some XYZ; it is obtained with the CIE inverse formulae and accepted when it lies in the box
+    // and the CIE forward formulae reproduce the coordinates
+    let cs = [-100.0, -40.0, -5.0, 0.0, 5.0, 40.0, 100.0]; let ls = [0.5, 2.0, 8.0, 9.0, 30.0, 50.0, 75.0, 100.0];
+    for l in ls { for p in cs { for q in cs {
+        let fi = |t: f64| if t * t * t > CIE_E { t * t * t } else { (116.0 * t - 16.0) / CIE_K };
+        let fy = (l + 16.0) / 116.0;
+        let x = [D65[0] * fi(fy + p / 500.0), D65[1] * (if l > CIE_K * CIE_E { fy * fy * fy } else { l / CIE_K }), D65[2] * fi(fy - q / 200.0)];
+        let inbox = |x: [f64; 3]| x.iter().all(|t| (0.0..=1.1).contains(t)) && x[1] > 0.0;
+        if inbox(x) && maxabs3(cielab(x), [l, p, q]) <= 1e-9 {
+            let b = v(Xyz::from(Lab { l, a: p, b: q }));
+            rep.check("C06.lab.reverse", maxabs3(b, x) <= 1e-5, || format!("coordinates lab ({:e},{:e},{:e}) of xyz ({:e},{:e},{:e}) -> ({:e},{:e},{:e})", l, p, q, x[0], x[1], x[2], b[0], b[1], b[2]));
+        }
+        let (un, vn) = (4.0 * D65[0] / (D65[0] + 15.0 * D65[1] + 3.0 * D65[2]), 9.0 * D65[1] / (D65[0] + 15.0 * D65[1] + 3.0 * D65[2]));
+        let (up, vp) = (p / (13.0 * l) + un, q / (13.0 * l) + vn);
+        if vp > 1e-3 {
+            let y = if l > CIE_K * CIE_E { fy * fy * fy } else { l / CIE_K };
+            let x = [y * 9.0 * up / (4.0 * vp), y, y * (12.0 - 3.0 * up - 20.0 * vp) / (4.0 * vp)];
+            if inbox(x) && maxabs3(cieluv(x), [l, p, q]) <= 1e-9 {
+                let b = v(Xyz::from(Luv { l, u: p, v: q }));
+                rep.check("C06.luv.reverse", maxabs3(b, x) <= 1e-5, || format!("coordinates luv ({:e},{:e},{:e}) of xyz ({:e},{:e},{:e}) -> ({:e},{:e},{:e})", l, p, q, x[0], x[1], x[2], b[0], b[1], b[2]));
+            }
+        }
+    } } }
     rep
 }
 
@@ -245,6 +276,22 @@ pub fn c08(tier: &str, seed: u64, known: &[String]) -> Report {
         let buggy = |e: f64| { let p = e.powf(1.0 / PQ_M2); if p == 0.0 { 0.0 } else { 10000.0 * ((p - PQ_C1).max(0.0) / ((PQ_C2 - PQ_C3) * p)).powf(1.0 / PQ_M1) } };
         let alt = [buggy(l2[0]), buggy(l2[1]), buggy(l2[2])];
         let rel = |a: [f64; 3], b: [f64; 3]| (0..3).all(|i| (a[i] - b[i]).abs() <= 1e-3 * (1.0 + b[i].abs()) || (a[i].is_nan() && b[i].is_nan()));
+        // the reverse conversions on the forward images (part of the property's quantifier): inverse curve, then matrix.
+        // Forward images can lie a hair outside [0,1] (the crate's matrices are not exact inverses): the inverse curve still applies
+        {
+            let (m65, ma, m2020) = (m_srgb_d65(), m_adobe(), m_bt2020());
+            let img = |name: &str, got: [f64; 3], want: [f64; 3], e: [f64; 3], rep: &mut Report| {
+                rep.check(name, maxabs3(got, want) <= 5e-6, || format!("{} forward image ({:e},{:e},{:e}) -> xyz ({:e},{:e},{:e}) want ({:e},{:e},{:e})", c(rgb), e[0], e[1], e[2], got[0], got[1], got[2], want[0], want[1], want[2]));
+            };
+            let e = [s.r, s.g, s.b];
+            img("C08.srgb.reverse", v(Xyz::from(Srgb { r: e[0], g: e[1], b: e[2] })), mul(&m65, [srgb_dec(e[0]), srgb_dec(e[1]), srgb_dec(e[2])]), e, rep);
+            let e = [a.r, a.g, a.b];
+            img("C08.argb.reverse", v(Xyz::from(Argb { r: e[0], g: e[1], b: e[2] })), mul(&ma, [adobe_dec(e[0]), adobe_dec(e[1]), adobe_dec(e[2])]), e, rep);
+            let r7 = Rec709::from(x); let e = [r7.r, r7.g, r7.b];
+            img("C08.rec709.reverse", v(Xyz::from(Rec709 { r: e[0], g: e[1], b: e[2] })), mul(&m65, [bt709_inv(e[0]), bt709_inv(e[1]), bt709_inv(e[2])]), e, rep);
+            let r2 = Rec2020::from(x); let e = [r2.r, r2.g, r2.b];
+            img("C08.rec2020.reverse", v(Xyz::from(Rec2020 { r: e[0], g: e[1], b: e[2] })), mul(&m2020, [bt2020_inv(e[0]), bt2020_inv(e[1]), bt2020_inv(e[2])]), e, rep);
+        }
         rep.check_known("C08.rec2100.forward", rel([r.r, r.g, r.b], want), rel([r.r, r.g, r.b], alt), || format!("{} rec2100 ({:e},{:e},{:e}) want ST2084 ({:e},{:e},{:e})", c(rgb), r.r, r.g, r.b, want[0], want[1], want[2]));
     });
     // reverse: per-channel sweeps across each curve (both branches, both sides of each breakpoint)
@@ -326,5 +373,20 @@ pub fn c14(tier: &str, seed: u64, known: &[String]) -> Report {
         let b = OkLab::from(OkLch { l: l / 100.0, c: c1, h: hr });
         rep.check("C14.oklch.reverse_random", b.l == l / 100.0 && (b.a - c1 * hr.cos()).abs() <= 1e-9 && (b.b - c1 * hr.sin()).abs() <= 1e-9, || format!("oklch ({:e},{:e},{:e}) -> oklab ({:e},{:e},{:e})", l / 100.0, c1, hr, b.l, b.a, b.b));
     }
+    // structured triples: "for every lightness, chroma >= 0 and hue" includes lightness 0 and below, chroma 0, hues on and beyond
+    // the wrap points and negative hues
+    for l in [-10.0, 0.0, 1e-9, 50.0, 100.0, 150.0] { for cc in [0.0, 1e-6, 0.1, 40.0, 200.0] { for h in [-720.0, -359.5, -180.0, -30.0, -0.0, 0.0, 1e-7, 90.0, 180.0, 270.0, 359.5, 360.0, 400.0, 1080.0] {
+        let (wa, wb) = (cc * f64::to_radians(h).cos(), cc * f64::to_radians(h).sin());
+        let tol = 1e-9 * (1.0 + cc);
+        let b = Lab::from(Lchlab { l, c: cc, h });
+        rep.check("C14.lchlab.reverse_random", b.l == l && (b.a - wa).abs() <= tol && (b.b - wb).abs() <= tol, || format!("lch ({:e},{:e},{:e}) -> lab ({:e},{:e},{:e})", l, cc, h, b.l, b.a, b.b));
+        let b = Luv::from(Lchuv { l, c: cc, h });
+        rep.check("C14.lchuv.reverse_random", b.l == l && (b.u - wa).abs() <= tol && (b.v - wb).abs() <= tol, || format!("lch ({:e},{:e},{:e}) -> luv ({:e},{:e},{:e})", l, cc, h, b.l, b.u, b.v));
+        let b = Luv::from(Hcl { h, c: cc, l });
+        rep.check("C14.hcl.reverse_random", b.l == l && (b.u - wa).abs() <= tol && (b.v - wb).abs() <= tol, || format!("hcl ({:e},{:e},{:e}) -> luv ({:e},{:e},{:e})", h, cc, l, b.l, b.u, b.v));
+        let hr = f64::to_radians(h); let c1 = cc / 400.0;
+        let b = OkLab::from(OkLch { l: l / 100.0, c: c1, h: hr });
+        rep.check("C14.oklch.reverse_random", b.l == l / 100.0 && (b.a - c1 * hr.cos()).abs() <= 1e-9 && (b.b - c1 * hr.sin()).abs() <= 1e-9, || format!("oklch ({:e},{:e},{:e}) -> oklab ({:e},{:e},{:e})", l / 100.0, c1, hr, b.l, b.a, b.b));
+    } } }
     rep
 }
